@@ -327,14 +327,23 @@ func letterCall(l byte, pos int) Call {
 	switch l {
 	case 'R':
 		o := ops.OpReset(customVB, ivg.DefaultPalette)
+		if pos%2 == 1 {
+			// the zero values of the metadata types: a one-point viewBox, 64 transparent entries
+			o = ops.OpReset(ivg.ViewBox{}, [64]color.RGBA{})
+		}
 		return Call{What: "reset", Op: &o}
 	case 'r':
 		return Call{What: "read"}
 	case 's':
-		if pos%2 == 0 {
+		switch pos % 4 {
+		case 0:
 			return op(ops.OpSetCSel(uint8(5 + pos)))
+		case 1:
+			return op(ops.OpSetLOD(float32(pos), 80))
+		case 2:
+			return op(ops.OpSetLOD(0, inf32)) // the range in force unless changed: a call without effect
 		}
-		return op(ops.OpSetLOD(float32(pos), 80))
+		return op(ops.OpSetNSel(0)) // likewise
 	case 'c':
 		if pos%2 == 0 {
 			return op(ops.OpSetCReg(uint8(pos%7), false, ops.ColorV{T: 0, R: 0x30, G: 0x66, B: 0x07, A: 0xff}))
@@ -583,6 +592,10 @@ func genCall(t *rapid.T, drawing bool) Call {
 			pal[0] = color.RGBA{0x10, 0x20, 0x30, 0x40}
 		}
 		o := ops.OpReset(gen.VB(vb), [64]color.RGBA(pal))
+		if rapid.IntRange(0, 5).Draw(t, "zerometa") == 0 {
+			o = ops.OpReset(ivg.ViewBox{}, [64]color.RGBA{})
+		}
+		lastLOD = [2]float32{0, inf32}
 		return Call{What: "reset", Op: &o}
 	case r < 8:
 		if hiresOK && rapid.IntRange(0, 2).Draw(t, "hires") == 0 {
@@ -607,7 +620,18 @@ func genCall(t *rapid.T, drawing bool) Call {
 		case 3:
 			return op(ops.OpDraw(ops.AbsLineTo, 1, 1)) // possibly outside a path
 		default:
-			return op(ops.OpSetCSel(3)) // possibly inside a path
+			// a styling call, possibly inside a path; often one that asks for what is in force anyway
+			switch rapid.IntRange(0, 5).Draw(t, "redundant") {
+			case 0:
+				return op(ops.OpSetCSel(0))
+			case 1:
+				return op(ops.OpSetNSel(0))
+			case 2:
+				return op(ops.OpSetLOD(0, inf32))
+			case 3:
+				return op(ops.OpSetLOD(lastLOD[0], lastLOD[1]))
+			}
+			return op(ops.OpSetCSel(3))
 		}
 	}
 	if drawing {
@@ -649,12 +673,16 @@ func genCall(t *rapid.T, drawing bool) Call {
 		}
 		return op(ops.OpSetNReg(adj, incr, exact(t, "f")))
 	case 4:
-		return op(ops.OpSetLOD(float32(rapid.IntRange(0, 100).Draw(t, "l0")), float32(rapid.IntRange(0, 1000).Draw(t, "l1"))))
+		lastLOD = [2]float32{float32(rapid.IntRange(0, 100).Draw(t, "l0")), float32(rapid.IntRange(0, 1000).Draw(t, "l1"))}
+		return op(ops.OpSetLOD(lastLOD[0], lastLOD[1]))
 	default:
 		pathStart = [2]float32{exact(t, "x"), exact(t, "y")}
 		return op(ops.OpStartPath(gen.Adj(t, "adj"), pathStart[0], pathStart[1]))
 	}
 }
+
+// lastLOD: the level-of-detail range genCall set last (the default after a Reset).
+var lastLOD = [2]float32{0, inf32}
 
 // prevVerb: the drawing verb genCall drew last in the current case.
 var prevVerb ops.Kind
@@ -677,6 +705,7 @@ func TestRandomHistories(t *testing.T) {
 		var c Case
 		a := newAutomaton()
 		prevVerb, runLeft, hiresOK, nextBytes = 0, 0, false, false
+		lastLOD = [2]float32{0, inf32}
 		for i := 0; i < n; i++ {
 			call := genCall(t, a.st == stDrawing && a.err == vNone)
 			a.step(i, call)
